@@ -117,7 +117,15 @@ func (gm *GovernanceMessage) ValidateBasic() error {
 	case gm.CastVote != nil && gm.SubmitProposal != nil:
 		return fmt.Errorf("governance runtime message has multiple fields set")
 	case gm.SubmitProposal != nil:
-		// No extra validation validation at this time.
+		// The proposal itself is validated when the message is executed. Parameter changes are
+		// free-form and the message is stored (together with the executor commitment) in the
+		// runtime's state, so make sure they are not nested too deeply for that state to remain
+		// decodable.
+		if cp := gm.SubmitProposal.ChangeParameters; cp != nil {
+			if err := cbor.ValidateFreeForm(cp.Changes); err != nil {
+				return fmt.Errorf("governance runtime message has malformed parameter changes: %w", err)
+			}
+		}
 		return nil
 	case gm.CastVote != nil:
 		// No extra validation validation at this time.
